@@ -272,7 +272,22 @@ pub fn run(ctx: &mut Ctx) {
             let with_comment = format!("{base}\n// trailing comment\n/* block */ ");
             let positions: Vec<usize> = with_comment.char_indices().map(|(i, _)| i).collect();
             let at = *rng.pick(&positions);
-            let c = *rng.pick(&FORBIDDEN);
+            // any member of the forbidden classes: C0 controls other than tab / LF / CR, DEL, the C1
+            // controls U+0080..U+009F, bidirectional overrides and isolates, deprecated code points
+            let c = match rng.below(4) {
+                0 => {
+                    let c0: Vec<char> = (0u32..0x20).filter(|c| ![9, 10, 13].contains(c)).chain([0x7f]).filter_map(char::from_u32).collect();
+                    *rng.pick(&c0)
+                }
+                1 => char::from_u32(0x80 + rng.below(0x20) as u32).unwrap(),
+                _ => *rng.pick(&FORBIDDEN),
+            };
+            ctx.count(match c as u32 {
+                0..=0x1f | 0x7f => "lexical:forbidden:c0-control",
+                0x80..=0x9f => "lexical:forbidden:c1-control",
+                0x202a..=0x202e | 0x2066..=0x2069 => "lexical:forbidden:bidi",
+                _ => "lexical:forbidden:deprecated",
+            });
             let mut t = with_comment.clone();
             t.insert(at, c);
             ctx.eval();
